@@ -115,12 +115,12 @@ inline void write_pending(const uint8_t* p, size_t n) {
   if (ftruncate(pending_fd, 0) != 0) return;
   ssize_t r = pwrite(pending_fd, p, n, 0); (void)r;
 }
-inline void record(const CaseInfo& ci, const uint8_t* p, size_t consumed) {
+inline void record(const CaseInfo& ci, const uint8_t* p, size_t consumed, uint64_t tailmix = 0) {
   if (st.frozen) return;
   st.evaluations++;
   if (ci.nontrivial) {
     st.nontrivial++;
-    uint64_t d = ci.has_digest ? ci.digest : fnv1a(p, consumed);
+    uint64_t d = ci.has_digest ? ci.digest : (fnv1a(p, consumed) ^ (tailmix * 0x9e3779b97f4a7c15ULL));
     if (st.digests.size() < 400000) st.digests.insert(d);
     if (st.samples.size() < 4 && !ci.sample.empty()) st.samples.push_back(ci.sample);
   }
@@ -156,7 +156,7 @@ inline int guarded(const uint8_t* p, size_t n, std::string* sig_out = nullptr, s
     sig = std::string(PROPERTY) + "|unexpected-exception|" + w.substr(0, 60); msg = w;
   }
   if (sample_out) *sample_out = ci.sample;
-  if (!failed) { record(ci, p, std::min(s.pos, n)); return 0; }
+  if (!failed) { record(ci, p, std::min(s.pos, n), s.tailmix); return 0; }
   if (is_known(sig)) {
     if (!st.frozen) { st.evaluations++; st.excluded[sig]++; st.excluded_total++; }
     return 0;
